@@ -109,7 +109,10 @@ def gen_case(rng, tier, index):
             "pause": rng.choice([0.0, 0.0, 0.5, 5.0]),
             # many epochs' worth of examples from a repeating stream: a
             # read-ahead that grows with what was consumed shows up
-            "k_long": rng.choice([0, 0, 0, 60, 150, 400])}
+            "k_long": rng.choice([0, 0, 0, 60, 150, 400]),
+            # the consumer works on every example (scheduling points between
+            # examples: readers that may run ahead do)
+            "consumer_works": rng.random() < 0.5}
 
 
 def run_prim(case):
@@ -279,7 +282,8 @@ def run_iface(case):
                 env, env.open(), iface, split, opts, k=k,
                 seed=case["sched_seed"], policy=case["policy"],
                 policy_param=0, choices=case.get("choices"),
-                max_steps=150000, pause=case.get("pause", 0.0))
+                max_steps=150000, pause=case.get("pause", 0.0),
+                consumer_works=bool(case.get("consumer_works")))
         ctx = (f"{iface} {st['fmt']} shards={n_shards} repeat={case['repeat']}"
                f" shuffle={case['shuffle']} fp={fp} take={k}")
         if rr.deadlock:
